@@ -52,6 +52,11 @@ fn lanes(c: &Cmd, cur: u32, map: &mut BTreeMap<u32, u32>) {
         | Cmd::ExpansionErr { id } => {
             map.insert(*id, cur);
         }
+        Cmd::ProbeBang { id, .. } | Cmd::ProbeS { id, .. } | Cmd::ReadProbe { id, .. } => {
+            map.insert(*id, cur);
+        }
+        Cmd::Async { body, .. } => lanes(body, m::lane_of_stage(cur, body), map),
+        Cmd::CmdSubst { body, .. } => lanes(body, cur, map),
         Cmd::Loop { id, body, .. } => {
             map.insert(*id, cur);
             lanes(body, cur, map);
@@ -85,11 +90,24 @@ fn lanes(c: &Cmd, cur: u32, map: &mut BTreeMap<u32, u32>) {
     }
 }
 
+#[derive(Default)]
 pub struct Verdict {
     pub ok: bool,
     pub signature: String,
     pub detail: String,
     pub events: usize,
+    pub choices: Vec<(u32, u32)>,
+    pub trace_hash: u64,
+    pub spawned: usize,
+    pub preempts: u32,
+    pub steps: u64,
+}
+
+#[derive(Clone, Copy, Default)]
+pub struct Opts {
+    pub compare_execs: bool,
+    /// every child of the shell must be dead and reaped when the shell exits
+    pub check_reaped: bool,
 }
 
 fn fmt_ev(e: &Ev) -> String {
@@ -103,6 +121,29 @@ fn fmt_ev(e: &Ev) -> String {
 
 /// Run the program under `strategy` and compare with the model.
 pub fn check(p: &Prog, text: &str, strategy: Strategy, compare_execs: bool) -> Verdict {
+    check_opts(
+        p,
+        text,
+        strategy,
+        Opts {
+            compare_execs,
+            check_reaped: false,
+        },
+    )
+}
+
+pub fn check_opts(p: &Prog, text: &str, strategy: Strategy, opts: Opts) -> Verdict {
+    let compare_execs = opts.compare_execs;
+    let mut v = check_inner(p, text, strategy, opts);
+    let _ = compare_execs;
+    if !v.ok && v.signature.is_empty() {
+        v.signature = "unknown".into();
+    }
+    v
+}
+
+fn check_inner(p: &Prog, text: &str, strategy: Strategy, opts: Opts) -> Verdict {
+    let compare_execs = opts.compare_execs;
     // model
     let run_lines: &[Cmd] = match p.syntax_error_after {
         Some(k) => &p.lines[..k],
@@ -141,6 +182,11 @@ pub fn check(p: &Prog, text: &str, strategy: Strategy, compare_execs: bool) -> V
             signature: format!("no-termination:{:?}", out.end),
             detail: format!("{}the shell did not terminate: {:?} after {} steps\nstderr:\n{}", script_dump(), out.end, out.steps, out.err()),
             events: out.events.len(),
+            choices: out.choices.clone(),
+            trace_hash: out.trace_hash,
+            spawned: out.spawned,
+            preempts: out.preempts,
+            steps: out.steps,
         };
     }
     // lanes
@@ -157,6 +203,11 @@ pub fn check(p: &Prog, text: &str, strategy: Strategy, compare_execs: bool) -> V
                 signature: "alien-event".into(),
                 detail: format!("{}unexpected probe event {:?}", script_dump(), e.args),
                 events: out.events.len(),
+                choices: out.choices.clone(),
+                trace_hash: out.trace_hash,
+                spawned: out.spawned,
+                preempts: out.preempts,
+                steps: out.steps,
             };
         };
         let lane = lane_of.get(&id).copied().unwrap_or(u32::MAX);
@@ -175,6 +226,14 @@ pub fn check(p: &Prog, text: &str, strategy: Strategy, compare_execs: bool) -> V
             match (g.get(i), e.get(i)) {
                 (None, None) => break,
                 (Some(ge), Some(ee)) if ge.0 == ee.id && m::st_matches(ee.st, ge.1) && ge.2 == ee.args => {}
+                // `probe k "$!" "$p"`: both must name the same (non-empty) pid
+                (Some(ge), Some(ee))
+                    if ge.0 == ee.id
+                        && m::st_matches(ee.st, ge.1)
+                        && ee.args.first().map(|s| s.as_str()) == Some("<pid>")
+                        && ge.2.len() == 2
+                        && ge.2[0] == ge.2[1]
+                        && !ge.2[0].is_empty() => {}
                 (ge, ee) => {
                     let kind = match (ge, ee) {
                         (Some(_), None) => "extra-command-ran".to_string(),
@@ -199,6 +258,11 @@ pub fn check(p: &Prog, text: &str, strategy: Strategy, compare_execs: bool) -> V
                             out.err()
                         ),
                         events: out.events.len(),
+                        choices: out.choices.clone(),
+                        trace_hash: out.trace_hash,
+                        spawned: out.spawned,
+                        preempts: out.preempts,
+                        steps: out.steps,
                     };
                 }
             }
@@ -218,6 +282,11 @@ pub fn check(p: &Prog, text: &str, strategy: Strategy, compare_execs: bool) -> V
                     out.err()
                 ),
                 events: out.events.len(),
+                choices: out.choices.clone(),
+                trace_hash: out.trace_hash,
+                spawned: out.spawned,
+                preempts: out.preempts,
+                steps: out.steps,
             };
         }
     }
@@ -246,6 +315,7 @@ pub fn check(p: &Prog, text: &str, strategy: Strategy, compare_execs: bool) -> V
                         want.execs
                     ),
                     events: out.events.len(),
+                    ..Default::default()
                 };
             }
         }
@@ -253,11 +323,34 @@ pub fn check(p: &Prog, text: &str, strategy: Strategy, compare_execs: bool) -> V
             state.borrow_mut().executor = None;
         }
     }
+    if opts.check_reaped && (!out.zombies.is_empty() || !out.alive.is_empty()) {
+        return Verdict {
+            ok: false,
+            signature: "unreaped-child".into(),
+            detail: format!(
+                "{}trace and statuses agree, but when the shell exited its children {:?} were dead and unreaped (zombies) and {:?} were still alive, although every job was waited for",
+                script_dump(),
+                out.zombies,
+                out.alive
+            ),
+            events: out.events.len(),
+            choices: out.choices.clone(),
+            trace_hash: out.trace_hash,
+            spawned: out.spawned,
+            preempts: out.preempts,
+            steps: out.steps,
+        };
+    }
     Verdict {
         ok: true,
         signature: String::new(),
         detail: String::new(),
         events: out.events.len(),
+        choices: out.choices.clone(),
+        trace_hash: out.trace_hash,
+        spawned: out.spawned,
+        preempts: out.preempts,
+        steps: out.steps,
     }
 }
 
